@@ -87,7 +87,12 @@ func (h *H) annotations() map[string]string {
 // variant returns a descriptor differing from d in exactly one field.
 func (h *H) variant(d ocispec.Descriptor, k int) ocispec.Descriptor {
 	v := ocispec.Descriptor{MediaType: d.MediaType, Digest: d.Digest, Size: d.Size}
-	switch k % 4 {
+	switch k % 6 {
+	case 4:
+		v.Size = 0 // "unknown size"
+		h.sizeVariant = true
+	case 5:
+		v.MediaType = "" // "unknown media type"
 	case 0:
 		v.Size = d.Size + 1
 		h.sizeVariant = true
@@ -121,7 +126,7 @@ func (h *H) decorate(d ocispec.Descriptor) ocispec.Descriptor {
 func (h *H) pickSubject() ocispec.Descriptor {
 	s := Pick(h.rng, h.subjects)
 	if h.rng.Chance(1, 6) {
-		s = h.variant(s, h.rng.Intn(4))
+		s = h.variant(s, h.rng.Intn(6))
 	}
 	return s
 }
@@ -172,13 +177,34 @@ func (h *H) imageManifest(cfg map[string]any, layers []any, subject any, artifac
 }
 
 // foreign pushes one foreign referrer of a kind chosen at random.
-func (h *H) foreign() {
-	s := h.pickSubject()
+func (h *H) foreign() { h.foreignKind(h.rng.Intn(nForeignKinds), h.pickSubject()) }
+
+const nForeignKinds = 16
+
+func (h *H) foreignKind(kind int, s ocispec.Descriptor) {
 	h.addQuery(s)
 	bl := h.someBlob()
 	uniq := map[string]string{"n": fmt.Sprintf("%x", h.rng.U64())}
 	h.nForeign++
-	switch h.rng.Intn(14) {
+	switch kind {
+	case 14: // artifact type differing from notation only in letter case / surrounding space / parameters
+		at := Pick(h.rng, []string{"application/vnd.cncf.notary.SIGNATURE", "Application/Vnd.Cncf.Notary.Signature", registry.ArtifactTypeNotation + " ", " " + registry.ArtifactTypeNotation, registry.ArtifactTypeNotation + "; charset=utf-8", registry.ArtifactTypeNotation + ".v2"})
+		var b []byte
+		mt := mtImage
+		if h.rng.Chance(1, 4) {
+			mt = mtArtifact
+			b = mustJSON(map[string]any{"mediaType": mtArtifact, "artifactType": at, "blobs": []any{plain(bl)}, "subject": plain(s), "annotations": uniq})
+		} else {
+			b = h.imageManifest(cfgOther(at), []any{plain(bl)}, plain(s), "", uniq)
+		}
+		h.raw(descOf(mt, b), b, "syntax:artifact-type-case-space-params")
+	case 15: // a notation manifest whose subject has size 0 / media type "" ("unknown") and the digest of s, reaching s through a layer
+		v := h.variant(s, 4+h.rng.Intn(2))
+		h.addQuery(v)
+		b := h.imageManifest(cfgNotation, []any{plain(s)}, plain(v), "", uniq)
+		d := descOf(mtImage, b)
+		h.raw(d, b, "near:subject-size0-or-mt-empty-layer-is-subject")
+		h.manis = append(h.manis, d)
 	case 0: // another artifact type (config media type), artifactType field set too
 		b := h.imageManifest(cfgOther("application/vnd.example.sbom.config"), []any{plain(bl)}, plain(s), "application/spdx+json", uniq)
 		h.raw(descOf(mtImage, b), b, "foreign:other-config-type")
@@ -202,14 +228,14 @@ func (h *H) foreign() {
 		b := mustJSON(map[string]any{"mediaType": mtArtifact, "artifactType": "application/x.sbom", "blobs": []any{plain(bl)}, "subject": plain(s), "annotations": uniq})
 		h.raw(descOf(mtArtifact, b), b, "legacy:other-type")
 	case 6: // notation manifest of a subject differing in one field, reaching s through a layer
-		v := h.variant(s, h.rng.Intn(4))
+		v := h.variant(s, h.rng.Intn(6))
 		h.addQuery(v)
 		b := h.imageManifest(cfgNotation, []any{plain(s)}, plain(v), "", uniq)
 		d := descOf(mtImage, b)
 		h.raw(d, b, "near:subject-variant-layer-is-subject")
 		h.manis = append(h.manis, d)
 	case 13: // legacy notation manifest of a subject differing in one field, reaching s through its blobs
-		v := h.variant(s, h.rng.Intn(4))
+		v := h.variant(s, h.rng.Intn(6))
 		h.addQuery(v)
 		b := mustJSON(map[string]any{"mediaType": mtArtifact, "artifactType": registry.ArtifactTypeNotation, "blobs": []any{plain(s)}, "subject": plain(v), "annotations": uniq})
 		d := descOf(mtArtifact, b)
@@ -266,8 +292,11 @@ func (h *H) foreign() {
 }
 
 // hostile pushes one hand-built signature manifest of subject s that must be refused on fetch.
-func (h *H) hostile() {
-	s := h.pickSubject()
+func (h *H) hostile() { h.hostileKind(h.rng.Intn(nHostileKinds), h.pickSubject()) }
+
+const nHostileKinds = 16
+
+func (h *H) hostileKind(kind int, s ocispec.Descriptor) {
 	h.addQuery(s)
 	bl := h.someBlob()
 	uniq := map[string]string{"n": fmt.Sprintf("%x", h.rng.U64())}
@@ -279,7 +308,24 @@ func (h *H) hostile() {
 	}
 	var layers []any
 	tag := ""
-	switch h.rng.Intn(9) {
+	missing := map[string]any{"mediaType": mtJWS, "digest": string(digest.FromString(fmt.Sprint(h.rng.U64()))), "size": 100}
+	switch kind {
+	// the valid blob at every position relative to an odd one
+	case 9:
+		layers, tag = []any{missing, plain(bl)}, "hostile:2-layers(missing,valid)"
+	case 10:
+		layers, tag = []any{plain(bl), missing}, "hostile:2-layers(valid,missing)"
+	case 11:
+		layers, tag = []any{sized(bl, capB+1), plain(bl)}, "hostile:2-layers(oversize,valid)"
+	case 12:
+		layers, tag = []any{plain(bl), sized(bl, capB+1)}, "hostile:2-layers(valid,oversize)"
+	case 13:
+		layers, tag = []any{plain(h.someBlob()), plain(bl), plain(h.someBlob())}, "hostile:3-layers"
+	case 14:
+		layers, tag = []any{plain(bl), map[string]any{"mediaType": "", "digest": "", "size": 0}}, "hostile:2-layers(valid,zero-descriptor)"
+	case 15:
+		layers, tag = []any{map[string]any{"mediaType": mtJWS, "digest": "sha256:" + strings.ToUpper(bl.Digest.Encoded()), "size": bl.Size}}, "hostile:blob-digest-upper-case-hex"
+
 	case 0:
 		layers, tag = []any{}, "hostile:0-layers"
 	case 1:
@@ -384,7 +430,7 @@ func (h *H) hostileFetch() {
 			d.MediaType = mtImage
 		}
 	case 5:
-		d.MediaType = Pick(h.rng, []string{mtIndex, mtDMan, "", mtJWS})
+		d.MediaType = Pick(h.rng, []string{mtIndex, mtDMan, "", mtJWS, strings.ToUpper(d.MediaType), d.MediaType + " ", " " + d.MediaType, d.MediaType + "; charset=utf-8"})
 	case 6:
 		d.Digest = digest.FromString(fmt.Sprint(h.rng.U64()))
 	case 7: // an envelope (or any blob) presented as a manifest
@@ -435,20 +481,29 @@ func (h *H) sweep() {
 	}
 }
 
+// newSubject makes a subject artifact (a real image manifest), optionally stored in the layout.
+func (h *H) newSubject(k int, store bool) ocispec.Descriptor {
+	b := mustJSON(map[string]any{"schemaVersion": 2, "mediaType": mtImage,
+		"config": map[string]any{"mediaType": "application/vnd.oci.image.config.v1+json", "digest": string(digest.FromString(fmt.Sprint("cfg", h.rng.U64()))), "size": 100 + k},
+		"layers": []any{map[string]any{"mediaType": "application/vnd.oci.image.layer.v1.tar+gzip", "digest": string(digest.FromString(fmt.Sprint("layer", h.rng.U64()))), "size": 1000 + h.rng.Intn(5000)}}})
+	d := descOf(mtImage, b)
+	h.subjects = append(h.subjects, d)
+	h.addQuery(d)
+	if store {
+		h.raw(d, b, "subject")
+	}
+	return d
+}
+
 // generate drives one history and returns its family name.
 func (h *H) generate(id int64, total int) string {
+	if id < nScripted {
+		return h.scripted(id)
+	}
 	// subjects: real image manifests; some are stored in the layout
 	ns := 1 + h.rng.Intn(3)
 	for k := 0; k < ns; k++ {
-		b := mustJSON(map[string]any{"schemaVersion": 2, "mediaType": mtImage,
-			"config": map[string]any{"mediaType": "application/vnd.oci.image.config.v1+json", "digest": string(digest.FromString(fmt.Sprint("cfg", h.rng.U64()))), "size": 100 + k},
-			"layers": []any{map[string]any{"mediaType": "application/vnd.oci.image.layer.v1.tar+gzip", "digest": string(digest.FromString(fmt.Sprint("layer", h.rng.U64()))), "size": 1000 + h.rng.Intn(5000)}}})
-		d := descOf(mtImage, b)
-		h.subjects = append(h.subjects, d)
-		h.addQuery(d)
-		if h.rng.Chance(2, 3) {
-			h.raw(d, b, "subject")
-		}
+		h.newSubject(k, h.rng.Chance(2, 3))
 	}
 	families := []string{"plain", "foreign", "near-subject", "hostile", "mixed", "mixed"}
 	family := families[int(id)%len(families)]
